@@ -399,6 +399,136 @@ def correspond(ctx):
             X = +B; lapack.tbtrs(Tbd, X, uplo=uplo, trans=trans, diag=diag); evals[0] += 1
             S.mat('R' + tag, Top); S.mat('V' + tag, X)
             S.small('sub mul $R%s $V%s $B%s' % (tag, tag, tag), '$R' + tag, '$V' + tag, 'tbtrs(uplo=%s, trans=%s, diag=%s, kd=%d): ||op(A) X - B||' % (uplo, trans, diag, kd), dict(desc0, A=list(Tb), B=list(B)))
+    # ------------------------------------------------------------ the remaining routines of lapack.c (pivoted QR, apply-Q from an LQ factorisation,
+    # expert and generalised eigenvalue drivers, generalised Schur form, lacpy, the elementary-reflector helpers): defining equations checked in
+    # floating point (tolerance 1e-9 relative to the data)
+    def rows(M_): return [[complex(M_[i, j]) for j in range(M_.size[1])] for i in range(M_.size[0])]
+    def mm(A_, B_): return [[sum(A_[i][t] * B_[t][j] for t in range(len(B_))) for j in range(len(B_[0]) if B_ else 0)] for i in range(len(A_))]
+    def hh(A_): return [[A_[i][j].conjugate() for i in range(len(A_))] for j in range(len(A_[0]) if A_ else 0)]
+    def dist(A_, B_): return max([abs(a - b) for ra, rb in zip(A_, B_) for a, b in zip(ra, rb)] + [0.0])
+    def ident(k_): return [[1.0 + 0j if i == j else 0j for j in range(k_)] for i in range(k_)]
+    def mag(A_): return max([abs(a) for r_ in A_ for a in r_] + [1.0])
+    def chk(sig, err, scale, what, desc):
+        evals[0] += 1; bump('direct:' + sig)
+        if not err <= 1e-9 * scale: viol('residual:' + sig, '%s is not small: %.3g (scale %.3g)' % (what, err, scale), desc)
+    for it in range(rounds):
+        tc = rng.choice('dz'); H_ = 'T' if tc == 'd' else 'C'
+        desc0 = {'typecode': tc, 'round': 'extra-%d' % it}
+        # geqp3: A P = Q R with |R[i,i]| non-increasing
+        m = rng.randint(1, 5); nn = rng.randint(1, m)
+        G = rand(m, nn, tc); A1 = +G; jp = matrix(0, (nn, 1)); tau = matrix(0.0, (nn, 1), tc)
+        try:
+            lapack.geqp3(A1, jp, tau)
+            perm = [int(v) - 1 for v in jp]
+            if sorted(perm) != list(range(nn)): viol('geqp3-permutation', 'geqp3: jpvt %r is not a permutation of 1..n' % list(jp), dict(desc0, A=list(G), m=m, n=nn))
+            else:
+                R_ = [[complex(A1[i, j]) if j >= i else 0j for j in range(nn)] for i in range(nn)]
+                Qe = +A1; (lapack.orgqr if tc == 'd' else lapack.ungqr)(Qe, tau); Q_ = rows(Qe)
+                AP = [[complex(G[i, perm[j]]) for j in range(nn)] for i in range(m)]
+                chk('geqp3', dist(mm(Q_, R_), AP), mag(AP), 'geqp3: ||Q R - A P||', dict(desc0, A=list(G), m=m, n=nn))
+                chk('geqp3-orth', dist(mm(hh(Q_), Q_), ident(nn)), 1.0, 'geqp3 + orgqr: ||Q^H Q - I||', dict(desc0, A=list(G), m=m, n=nn))
+                dg = [abs(R_[i][i]) for i in range(nn)]
+                if any(dg[i] < dg[i + 1] * (1 - 1e-9) for i in range(nn - 1)): viol('geqp3-diagonal', 'geqp3: |R[i,i]| is not non-increasing: %r' % dg, dict(desc0, A=list(G), m=m, n=nn))
+        except Exception as e: viol('raises-on-valid:geqp3', 'geqp3 raised %s (%s)' % (type(e).__name__, e), dict(desc0, A=list(G), m=m, n=nn))
+        # gelqf + ormlq / unmlq: the full Q (n x n) applied to the identity; A = [L 0] Q
+        m = rng.randint(1, 4); nn = rng.randint(m, 5)
+        G = rand(m, nn, tc); Lq = +G; tau = matrix(0.0, (m, 1), tc)
+        try:
+            lapack.gelqf(Lq, tau)
+            apply_ = lapack.ormlq if tc == 'd' else lapack.unmlq
+            C1 = eye(nn, tc); apply_(Lq, tau, C1, side='L', trans='N')
+            C2 = eye(nn, tc); apply_(Lq, tau, C2, side='L', trans=H_)
+            C3 = eye(nn, tc); apply_(Lq, tau, C3, side='R', trans='N')
+            Q_ = rows(C1)
+            L0 = [[complex(Lq[i, j]) if j <= i else 0j for j in range(nn)] for i in range(m)]
+            d_ = dict(desc0, A=list(G), m=m, n=nn)
+            chk('ormlq-orth', dist(mm(hh(Q_), Q_), ident(nn)), 1.0, 'ormlq/unmlq: ||Q^H Q - I||', d_)
+            chk('ormlq', dist(mm(L0, Q_), rows(G)), mag(rows(G)), 'gelqf + ormlq/unmlq: ||[L 0] Q - A||', d_)
+            chk('ormlq-trans', dist(rows(C2), hh(Q_)), 1.0, "ormlq/unmlq(trans): ||Q^H - result||", d_)
+            chk('ormlq-side', dist(rows(C3), Q_), 1.0, "ormlq/unmlq(side='R'): ||I Q - Q||", d_)
+        except Exception as e: viol('raises-on-valid:ormlq', 'gelqf / ormlq raised %s (%s)' % (type(e).__name__, e), dict(desc0, A=list(G), m=m, n=nn))
+        # syevx / heevx: all eigenvalues, an index range, a value range
+        n = rng.randint(1, 5); uplo = rng.choice('LU'); E = herm(n, tc); Est = tri_store(E, uplo, rng)
+        fx = lapack.syevx if tc == 'd' else lapack.heevx; nm = 'syevx' if tc == 'd' else 'heevx'
+        d_ = dict(desc0, A=list(Est), uplo=uplo, n=n)
+        try:
+            Wall = matrix(0.0, (n, 1)); (lapack.syev if tc == 'd' else lapack.heev)(+Est, Wall, uplo=uplo); wall = list(Wall)
+            W = matrix(0.0, (n, 1)); Z = matrix(0.0, (n, n), tc); cnt = fx(+Est, W, jobz='V', range='A', uplo=uplo, Z=Z)
+            Z_ = rows(Z); E_ = rows(E)
+            chk(nm, max([abs(a - b) for a, b in zip(W, wall)] + [0.0]), mag(E_), "%s(range='A'): eigenvalues differ from syev/heev" % nm, d_)
+            chk(nm + '-vectors', dist(mm(E_, Z_), [[Z_[i][j] * W[j] for j in range(n)] for i in range(n)]), mag(E_), "%s(range='A'): ||A Z - Z diag(w)||" % nm, d_)
+            chk(nm + '-orth', dist(mm(hh(Z_), Z_), ident(n)), 1.0, "%s(range='A'): ||Z^H Z - I||" % nm, d_)
+            il = rng.randint(1, n); iu = rng.randint(il, n)
+            W2 = matrix(0.0, (n, 1)); Z2 = matrix(0.0, (n, iu - il + 1), tc); cnt2 = fx(+Est, W2, jobz='V', range='I', uplo=uplo, il=il, iu=iu, Z=Z2)
+            if cnt2 != iu - il + 1: viol('count:' + nm, "%s(range='I', il=%d, iu=%d) returned %r eigenvalues" % (nm, il, iu, cnt2), d_)
+            else:
+                chk(nm + '-index-range', max([abs(a - b) for a, b in zip(list(W2)[:cnt2], wall[il - 1:iu])] + [0.0]), mag(E_), "%s(range='I'): eigenvalues il..iu differ from the sorted spectrum" % nm, d_)
+                Z2_ = rows(Z2)
+                chk(nm + '-index-vectors', dist(mm(E_, Z2_), [[Z2_[i][j] * W2[j] for j in range(cnt2)] for i in range(n)]), mag(E_), "%s(range='I'): ||A Z - Z diag(w)||" % nm, d_)
+            gaps = [(wall[i + 1] - wall[i], i) for i in range(n - 1)]
+            if gaps and max(gaps)[0] > 1e-3:
+                gi = max(gaps)[1]; vu = 0.5 * (wall[gi] + wall[gi + 1]); vl = wall[0] - 1.0
+                W3 = matrix(0.0, (n, 1)); cnt3 = fx(+Est, W3, jobz='N', range='V', uplo=uplo, vl=vl, vu=vu)
+                if cnt3 != gi + 1: viol('count:' + nm, "%s(range='V', vl=%r, vu=%r) returned %r eigenvalues, the interval holds %d" % (nm, vl, vu, cnt3, gi + 1), d_)
+                else: chk(nm + '-value-range', max([abs(a - b) for a, b in zip(list(W3)[:cnt3], wall[:gi + 1])] + [0.0]), mag(E_), "%s(range='V'): eigenvalues differ" % nm, d_)
+        except Exception as e: viol('raises-on-valid:' + nm, '%s raised %s (%s)' % (nm, type(e).__name__, e), d_)
+        # sygv / hegv: generalised symmetric-definite problems, the three types
+        n = rng.randint(1, 4); uplo = rng.choice('LU'); E = herm(n, tc); Bp = herm(n, tc, pd=True)
+        fg = lapack.sygv if tc == 'd' else lapack.hegv; nm = 'sygv' if tc == 'd' else 'hegv'
+        for itype in (1, 2, 3):
+            d_ = dict(desc0, A=list(E), B=list(Bp), uplo=uplo, itype=itype)
+            try:
+                A1 = tri_store(E, uplo, rng); B1 = tri_store(Bp, uplo, rng); W = matrix(0.0, (n, 1))
+                fg(A1, B1, W, itype=itype, jobz='V', uplo=uplo)
+                Z_ = rows(A1); E_ = rows(E); B_ = rows(Bp); ZW = [[Z_[i][j] * W[j] for j in range(n)] for i in range(n)]
+                if itype == 1: lhs, rhs = mm(E_, Z_), mm(B_, ZW)
+                elif itype == 2: lhs, rhs = mm(E_, mm(B_, Z_)), ZW
+                else: lhs, rhs = mm(B_, mm(E_, Z_)), ZW
+                chk('%s-type%d' % (nm, itype), dist(lhs, rhs), mag(E_) * mag(B_) * mag(Z_), '%s(itype=%d): eigen-equation residual' % (nm, itype), d_)
+                if itype in (1, 2): chk('%s-norm%d' % (nm, itype), dist(mm(hh(Z_), mm(B_, Z_)), ident(n)), mag(B_) * mag(Z_) ** 2, '%s(itype=%d): ||Z^H B Z - I||' % (nm, itype), d_)
+                if any(W[i] > W[i + 1] for i in range(n - 1)): viol('eigenvalues-not-sorted:' + nm, '%s: eigenvalues are not ascending' % nm, d_)
+                A2 = tri_store(E, uplo, rng); B2 = tri_store(Bp, uplo, rng); W2 = matrix(0.0, (n, 1)); fg(A2, B2, W2, itype=itype, jobz='N', uplo=uplo)
+                chk('%s-jobz%d' % (nm, itype), max([abs(a - b) for a, b in zip(W, W2)] + [0.0]), mag(E_) * mag(B_), "%s: jobz='N' and 'V' give different eigenvalues" % nm, d_)
+            except Exception as e: viol('raises-on-valid:' + nm, '%s(itype=%d) raised %s (%s)' % (nm, itype, type(e).__name__, e), d_)
+        # gges: generalised Schur form of a pair
+        n = rng.randint(1, 4); As = rand(n, n, tc); Bs = wellcond(n, tc)
+        d_ = dict(desc0, A=list(As), B=list(Bs), n=n)
+        try:
+            S1 = +As; T1 = +Bs; a_ = matrix(0.0, (n, 1), 'z'); b_ = matrix(0.0, (n, 1), 'd'); Vl = matrix(0.0, (n, n), tc); Vr = matrix(0.0, (n, n), tc)
+            lapack.gges(S1, T1, a_, b_, Vl, Vr)
+            L_, R_, S_, T_ = rows(Vl), rows(Vr), rows(S1), rows(T1)
+            chk('gges-A', dist(mm(L_, mm(S_, hh(R_))), rows(As)), mag(rows(As)), 'gges: ||Vsl S Vsr^H - A||', d_)
+            chk('gges-B', dist(mm(L_, mm(T_, hh(R_))), rows(Bs)), mag(rows(Bs)), 'gges: ||Vsl T Vsr^H - B||', d_)
+            chk('gges-orth', max(dist(mm(hh(L_), L_), ident(n)), dist(mm(hh(R_), R_), ident(n))), 1.0, 'gges: Vsl, Vsr are not orthonormal', d_)
+            if any(T1[i, j] != 0 for i in range(n) for j in range(i)): viol('gges-not-triangular', 'gges: T is not upper triangular', d_)
+            if any(S1[i, j] != 0 for i in range(n) for j in range(n) if i > j + (1 if tc == 'd' else 0)): viol('gges-not-triangular', 'gges: S is not (quasi-)upper triangular', d_)
+            if tc == 'z': chk('gges-eigenvalues', max([abs(a_[i] - S1[i, i]) + abs(b_[i] - T1[i, i]) for i in range(n)] + [0.0]), mag(S_) + mag(T_), 'gges: (a, b) are not the diagonals of S and T', d_)
+        except Exception as e: viol('raises-on-valid:gges', 'gges raised %s (%s)' % (type(e).__name__, e), d_)
+        # lacpy: the selected part is copied, the rest of B is untouched
+        m = rng.randint(0, 4); nn = rng.randint(0, 4); A1 = rand(m, nn, tc); B1 = rand(m, nn, tc); B0 = +B1; up = rng.choice('NLU')
+        lapack.lacpy(A1, B1, uplo=up)
+        sel = lambda i, j: up == 'N' or (up == 'L' and i >= j) or (up == 'U' and i <= j)
+        evals[0] += 1
+        if any(B1[i, j] != (A1[i, j] if sel(i, j) else B0[i, j]) for i in range(m) for j in range(nn)):
+            viol('lacpy', "lacpy(uplo='%s') does not copy exactly the selected part" % up, dict(desc0, m=m, n=nn, uplo=up))
+        # larfg / larfx: the elementary reflector H = I - tau v v^H
+        n = rng.choice([1, 2, 3, 5, 12]); al = rand(1, 1, tc); x = rand(n - 1, 1, tc); al0 = complex(al[0]); x0 = [complex(v) for v in x]
+        try:
+            tau_ = complex(lapack.larfg(al, x)); beta = complex(al[0]); v_ = [1.0 + 0j] + [complex(v) for v in x]
+            w0 = [al0] + x0; vhw = sum(a.conjugate() * b for a, b in zip(v_, w0))
+            res = [b - tau_.conjugate() * a * vhw for a, b in zip(v_, w0)]                 # H^H w
+            chk('larfg', max([abs(res[0] - beta)] + [abs(r_) for r_ in res[1:]]), max(1.0, abs(al0), max([abs(t) for t in x0] + [0.0])), 'larfg: H^H (alpha; x) != (beta; 0)', dict(desc0, alpha=al0, x=x0))
+            if tc == 'd' and beta.imag != 0: viol('larfg', 'larfg: beta is not real', dict(desc0, alpha=al0, x=x0))
+        except Exception as e: viol('raises-on-valid:larfg', 'larfg raised %s (%s)' % (type(e).__name__, e), dict(desc0, n=n))
+        side = rng.choice('LR'); m = rng.choice([1, 2, 4, 11, 13]); nn = rng.choice([1, 3, 5, 12])
+        C = rand(m, nn, tc); ord_ = m if side == 'L' else nn
+        vv = rand(ord_, 1, tc); vv[0] = 1.0; tv = complex(val(tc)) / 4 if tc == 'z' else float(val(tc)) / 4
+        try:
+            C1 = +C; lapack.larfx(vv, tv, C1, side=side)
+            v_ = [complex(t) for t in vv]; Hm = [[(1.0 if i == j else 0.0) - complex(tv) * v_[i] * v_[j].conjugate() for j in range(ord_)] for i in range(ord_)]
+            ref = mm(Hm, rows(C)) if side == 'L' else mm(rows(C), Hm)
+            chk('larfx', dist(rows(C1), ref), mag(ref), "larfx(side='%s', %d x %d): ||result - H C||" % (side, m, nn), dict(desc0, m=m, n=nn, side=side, tau=tv, v=[complex(t) for t in vv]))
+        except Exception as e: viol('raises-on-valid:larfx', 'larfx raised %s (%s)' % (type(e).__name__, e), dict(desc0, m=m, n=nn, side=side))
     out = vlib.drive('C18', S.lines)
     judged = 0
     for l, o, m in zip(S.lines, out, S.meta):
@@ -416,7 +546,7 @@ def correspond(ctx):
     ctx.cov.update({'evaluations': evals[0] + judged, 'distinct_nontrivial': judged,
                     'rule': '%d rounds x (typecode d/z, order 0..5, 0..3 right-hand sides): general, positive definite, symmetric, hermitian, triangular, band, tridiagonal '
                             'systems (drivers, factor+solve, inverses, uplo / trans / diag options, arbitrary values in the unreferenced triangle), least squares, QR / LQ '
-                            'with explicit Q and apply-Q, symmetric/hermitian eigenvalue routines, SVD (two drivers), Schur; exactly singular and non-positive-definite inputs, '
+                            'with explicit Q and apply-Q (QR and LQ, both sides), pivoted QR, symmetric/hermitian eigenvalue routines incl. the expert drivers with index and value ranges, generalised symmetric-definite problems (three types), SVD (two drivers), Schur and generalised Schur forms, lacpy, larfg / larfx; exactly singular and non-positive-definite inputs, '
                             'size- and type-inconsistent arguments; embedding invariance of all wrappers (offset / leading-dimension keywords)' % rounds,
                     'outcomes': stat})
 
